@@ -5,6 +5,7 @@
 import Mb2.Mbi
 import Mb2.Spec
 import Mb2.Ids
+import Mb2.Sweep
 namespace Mb2.Driver
 open Mb2
 
@@ -223,6 +224,36 @@ def specFind (t : List String) : String :=
     | .some_ i l => s!"some({i},{i},{l},{hex64 (fnv (slice buf i l))})"
   | _ => "*"
 
+
+/-- CAST <code> <size>: user-defined tag types of the harness (`sK`: K extra words; `dKeE`: K words then a tail of E-byte elements) -/
+def castDesc (code : String) : Option TyDesc :=
+  let cs := code.toList
+  match cs with
+  | 's' :: k => some (sizedDesc (8 + 4 * (String.ofList k).toNat!))
+  | 'd' :: k :: 'e' :: e =>
+    let kk := (String.ofList [k]).toNat!
+    let ee := (String.ofList e).toNat!
+    let a := if ee = 4 then 4 else if ee = 8 ∨ ee = 24 then 8 else 1
+    some (dstDesc (roundUp (8 + 4 * kk) a) ee)
+  | _ => none
+
+def castCase (p : Profile) (t : List String) : String :=
+  match t with
+  | [_, code, sz] =>
+    match castDesc code with
+    | none => s!"unknown-type:{code}"
+    | some d =>
+      let size := sz.toNat!
+      if size < 8 then "panic" else
+      resStr (fun (r : Nat × Nat) => s!"ok off=0 sov={r.1} n={r.2}") (castTo p .tag d size (size - 8))
+  | _ => "bad-case"
+
+/-- C15 on the observation: a successful cast is at the same address and spans the tag's size rounded up to 8 -/
+def specCast (t : List String) : String :=
+  match t with
+  | [_, _, sz] => let size := sz.toNat!; if size < 8 then "panic" else s!"panic||ok off=0 sov={roundUp8 size} *"
+  | _ => "*"
+
 def specRnd (t : List String) : String :=
   match t with
   | [_, n] => let v := n.toNat!; if v + 7 < 18446744073709551616 then toString (roundUp8 v) else "*"
@@ -243,6 +274,7 @@ def specHandle (line : String) : String :=
     | "HLOAD" => specHload t
     | "CKS" => specCks t
     | "FIND" => specFind t
+    | "CAST" => specCast t
     | _ => "*"
 
 /-! ### exhaustive block hashes: FNV fold of a model function over the 2^20 arguments of block `b` -/
@@ -283,6 +315,8 @@ def handle (p : Profile) (line : String) : String :=
     | "HLOAD" => hloadCase p t
     | "CKS" => cksCase t
     | "FIND" => findCase t
+    | "CAST" => castCase p t
+    | "SWEEP" => (match t with | _ :: hx :: _ => Sweep.sweep p (unhex hx) | _ => "bad-case")
     | _ => s!"unknown-family:{f}"
 
 end Mb2.Driver
